@@ -1,0 +1,1 @@
+//! Hooks for property C04 (empty until needed).
